@@ -130,7 +130,10 @@ def oracle(pkg, table, hi, hf, x):
         return '%d records for %d rows' % (len(x.staTemp), len(cd))
     hum = pkg.psychrometrics.hum_from_rhum_temp
     for i, r in enumerate(cd):
-        t, rh, p = num(r[6]), num(r[8]), num(r[9])
+        try:
+            t, rh, p = num(r[6]), num(r[8]), num(r[9])
+        except (ValueError, IndexError):
+            return 'record %d exists although cells 6 / 8 / 9 of its row %r are not all numbers' % (i, r[6:10])
         if x.staTemp[i] != t + F('273.15'):
             return 'record %d: temperature %s K, row says %s C' % (i, x.staTemp[i], r[6])
         if x.staRhum[i] != rh:
